@@ -2,6 +2,7 @@
 
 import ast
 from collections.abc import Awaitable, Callable
+import copy
 import logging
 import os
 from types import ModuleType
@@ -56,7 +57,12 @@ class GlobalContext:
             #
             self.global_sym_table["hass"] = Function.hass
         if app_config:
-            self.global_sym_table["pyscript.app_config"] = app_config.copy()
+            #
+            # the script gets its own (deep) copy: whatever it writes into it, also into nested
+            # values, must not reach self.app_config, which load_scripts() compares with the
+            # yaml configuration to decide whether the app changed
+            #
+            self.global_sym_table["pyscript.app_config"] = copy.deepcopy(app_config)
 
     def trigger_register(self, func: EvalFunc) -> bool:
         """Register a trigger function; return True if start now."""
